@@ -27,6 +27,7 @@ package rux
 //@   ensures early(self) == (old(early(self)) || old(hdrCalls(self)) == 0)
 //@ extern (net/http.ResponseWriter).Header(self) (h)
 //@   pure
+//@   ensures h == uf("headersOf", ref, refof(self)) && h != nil
 //@ extern (net/http.Flusher).Flush(self)
 //@   modifies early(self)
 //@   ensures early(self) == (old(early(self)) || old(hdrCalls(self)) == 0)
@@ -635,3 +636,48 @@ package rux
 //@   modifies held(r.cachedRoutes.lock), entries(r.cachedRoutes.hashMap), lmem(r.cachedRoutes.list, _), rank(_), lclock(r.cachedRoutes.list), ln(r.cachedRoutes.list), lback(r.cachedRoutes.list)
 //@   panics r.OnPanic == nil || uf("hookPanics", bool, r.OnPanic)
 //@   ensures[C08] committed_exactly_once: hdrCalls(res) == 1 && !early(res)
+
+//@ func (*responseWriter).Header [C08, C19, C20]
+//@   requires w.Writer != nil && !hastype(w.Writer, *responseWriter)
+//@   ensures result == uf("headersOf", ref, refof(w.Writer)) && result != nil
+
+// ---------------------------------------------------------------------------
+// http.Handler wrappers (C20)
+//
+// apply(f, h): the handler returned by wrapper f for h. W(j): preHandlers[j] applied to W(j+1), W(n) = the router.
+// The definition of W is given as a precondition on the uninterpreted symbol (such a W exists for every
+// argument list, by recursion on n - j), so what is proved for it holds for the real composition.
+//@ functype (*Router).WrapHTTPHandlers:preHandlers(self, h)
+//@   pure
+//@   ensures result == uf("apply", any, self, h)
+//@ func (*Router).WrapHTTPHandlers [C20]
+//@   requires W_def: (forall j int :: 0 <= j && j < len(preHandlers) ==> uf("W", any, j) == uf("apply", any, preHandlers[j], uf("W", any, j + 1)))
+//@       && uf("W", any, len(preHandlers)) == iface(r, *Router)
+//@   requires forall j int :: 0 <= j && j < len(preHandlers) ==> preHandlers[j] != nil
+//@   ensures first_listed_outermost: len(preHandlers) > 0 ==> result == uf("W", any, 0)
+//@   ensures none: len(preHandlers) == 0 ==> result == nil
+//@ loop (*Router).WrapHTTPHandlers #0
+//@   vars wrapped, rangeindex
+//@   invariant -1 <= rangeindex && rangeindex < max(len(preHandlers), 0) || rangeindex == -1
+//@   invariant rangeindex >= 0 ==> wrapped == uf("W", any, len(preHandlers) - rangeindex - 1)
+//@   invariant rangeindex == -1 ==> wrapped == nil
+
+//@ func WrapHTTPHandler$1 [C20]
+//@   requires c != nil && gh != nil
+//@   modifies served(gh), servedReq(gh), servedW(gh)
+//@   modifies rwOf(c.Resp).status, rwOf(c.Resp).length, hdrCalls(rwOf(c.Resp).Writer), hdrStatus(rwOf(c.Resp).Writer), body(rwOf(c.Resp).Writer), early(rwOf(c.Resp).Writer)
+//@   panics *
+//@   ensures delegates_once: served(gh) == old(served(gh)) + 1 && servedReq(gh) == c.Req && servedW(gh) == refof(c.Resp)
+//@   ensures chain_untouched: c.index == old(c.index) && c.handlers == old(c.handlers)
+//@   ensures writer_inv: respBound(c) && old(wInv(&c.writer)) ==> wInv(&c.writer)
+//@ func WrapHTTPHandlerFunc$1 [C20]
+//@   requires c != nil && hf != nil
+//@   panics *
+//@   modifies rwOf(c.Resp).status, rwOf(c.Resp).length, hdrCalls(rwOf(c.Resp).Writer), hdrStatus(rwOf(c.Resp).Writer), body(rwOf(c.Resp).Writer), early(rwOf(c.Resp).Writer)
+//@   ensures chain_untouched: c.index == old(c.index) && c.handlers == old(c.handlers)
+//@   ensures writer_inv: respBound(c) && old(wInv(&c.writer)) ==> wInv(&c.writer)
+// http.HandlerFunc values: same rely as generic handlers.
+//@ functype net/http.HandlerFunc(self, w, r)
+//@   modifies rwOf(w).status, rwOf(w).length, hdrCalls(rwOf(w).Writer), hdrStatus(rwOf(w).Writer), body(rwOf(w).Writer), early(rwOf(w).Writer)
+//@   panics *
+//@   ensures hastype(w, *responseWriter) && old(wInv(rwOf(w))) ==> wInv(rwOf(w))
